@@ -94,7 +94,7 @@ def run(prop, tier, replay):
                     vf.run_recorder([bins["rec-heur"]] + args + ["-corpus", CORPUS, "-out", path], timeout=3000)
                 jobs.append(dict(name="%s-%s-%d" % (prop, mode, i), record=record, args=args))
         if prop == "C16":
-            gsh = 4
+            gsh = 4 if tier == "quick" else 16
             for i in range(gsh):
                 args = ["-mode", "grav", "-shard", str(i), "-nshards", str(gsh)] + (["-full"] if tier == "thorough" else [])
 
